@@ -669,10 +669,22 @@ int vnadata_convert(const vnadata_t *vdp_in, vnadata_t *vdp_out,
      * change the dimensions to a row vector.
      */
     if (vdp_in == vdp_out && (group & CONV_MASK) == CONV_xtoI) {
+	int old_cells = vdp_out->vd_rows * vdp_out->vd_columns;
+
 	if (vdp_out->vd_rows < vdp_out->vd_columns) {
 	    vdp_out->vd_columns = vdp_out->vd_rows;
 	}
 	vdp_out->vd_rows = 1;
+
+	/*
+	 * Zero the vacated cells to maintain the invariant that cells
+	 * beyond the current dimensions hold initial values.
+	 */
+	for (int findex = 0; findex < vdp_out->vd_frequencies; ++findex) {
+	    for (int cell = vdp_out->vd_columns; cell < old_cells; ++cell) {
+		vdp_out->vd_data[findex][cell] = 0.0;
+	    }
+	}
     }
     return 0;
 }
